@@ -153,13 +153,11 @@ impl DMatrix {
   /// `unsafe { Matrix::uninit(r, c).assume_init() }` after rule X5: nothing is initialised
   #[verifier::external_body]
   pub fn uninit(r: usize, c: usize) -> (m: DMatrix)
-    requires r * c <= usize::MAX
     ensures m@.r == r, m@.c == c, m.initd() == Set::<int>::empty() { unimplemented!() }
   #[verifier::external_body]
   pub fn zeros(n: usize) -> (m: DMatrix) ensures m@ == zeros(n as nat, 1), m.ok() { unimplemented!() }
   #[verifier::external_body]
   pub fn zeros_generic<R: Dim, C: Dim>(r: R, c: C) -> (m: DMatrix)
-    requires r.dv() * c.dv() <= usize::MAX
     ensures m@ == zeros(r.dv(), c.dv()), m.ok() { unimplemented!() }
   #[verifier::external_body]
   pub fn transpose(&self) -> (m: DMatrix) requires self.ok() ensures m@ == mtr(self@), m.ok() { unimplemented!() }
@@ -282,8 +280,18 @@ impl DMatrix {
   pub fn svd(self, compute_u: bool, compute_v: bool) -> (r: SVD)
     requires self.ok(), self@.r >= 1, self@.c >= 1, self.fin(),
     ensures compute_u && compute_v ==> r.is_of(self@),
+            svd_ok(self@, svd_u(self@), svd_s(self@), svd_vt(self@)),
   { unimplemented!() }
 }
+
+// =============================================================================== varpro leaves (assumed; bounded Kani validation)
+/// src/solvers/levmar/mod.rs `is_all_finite` (iterator `all` over the entries; Verus has no iterator adapters):
+/// true iff every entry is finite. Bounded validation: Kani harness `kani_is_all_finite_2x2`.
+#[verifier::external_body]
+pub fn is_all_finite(matrix: &DMatrix) -> (b: bool)
+  requires matrix.ok()
+  ensures b == matrix.fin()
+{ unimplemented!() }
 
 // =============================================================================== std helpers
 pub assume_specification<T, U> [core::option::Option::<T>::zip] (a: Option<T>, b: Option<U>) -> (r: Option<(T, U)>)
@@ -295,6 +303,7 @@ pub assume_specification<T, P: FnOnce(&T) -> bool> [core::option::Option::<T>::f
   requires a matches Some(x) ==> predicate.requires((&x,)),
   ensures r matches Some(y) ==> a == Some(y) && predicate.ensures((&y,), true),
           (a matches Some(x) && predicate.ensures((&x,), false)) ==> r.is_none(),
+          (a matches Some(x) && !predicate.ensures((&x,), false)) ==> r == a,
           a.is_none() ==> r.is_none();
 
 // =============================================================================== the model trait contract
@@ -313,15 +322,6 @@ pub trait SeparableNonlinearModel: Sized {
   spec fn g_accepts(&self, p: MatR) -> bool;
   spec fn g_eval_ok(&self, al: MatR) -> bool;
   spec fn g_deriv_ok(&self, al: MatR, k: int) -> bool;
-  /// what no method may change
-  open spec fn g_same(&self, o: &Self) -> bool {
-    &&& self.g_len() == o.g_len() && self.g_nbasis() == o.g_nbasis() && self.g_nparams() == o.g_nparams()
-    &&& forall |al: MatR| #[trigger] self.g_phi(al) == o.g_phi(al)
-    &&& forall |al: MatR, k: int| #[trigger] self.g_dphi(al, k) == o.g_dphi(al, k)
-    &&& forall |p: MatR| #[trigger] self.g_accepts(p) == o.g_accepts(p)
-    &&& forall |al: MatR| #[trigger] self.g_eval_ok(al) == o.g_eval_ok(al)
-    &&& forall |al: MatR, k: int| #[trigger] self.g_deriv_ok(al, k) == o.g_deriv_ok(al, k)
-  }
   proof fn g_counts(&self) requires self.g_inv() ensures self.g_nbasis() >= 1, self.g_nparams() >= 1;
 
   fn parameter_count(&self) -> (n: usize) requires self.g_inv() ensures n == self.g_nparams();
@@ -329,7 +329,14 @@ pub trait SeparableNonlinearModel: Sized {
   fn output_len(&self) -> (n: usize) requires self.g_inv() ensures n == self.g_len();
   fn set_params(&mut self, parameters: DMatrix) -> (r: Result<(), Self::Error>)
     requires old(self).g_inv(), parameters.ok(), parameters@.c == 1,
-    ensures final(self).g_inv(), old(self).g_same(final(self)),
+    ensures final(self).g_inv(),
+            // == g_same(old(self), final(self)), written out (a generic helper would be a definitional cycle)
+            old(self).g_len() == final(self).g_len() && old(self).g_nbasis() == final(self).g_nbasis() && old(self).g_nparams() == final(self).g_nparams(),
+            forall |al: MatR| #[trigger] old(self).g_phi(al) == final(self).g_phi(al),
+            forall |al: MatR, k: int| #[trigger] old(self).g_dphi(al, k) == final(self).g_dphi(al, k),
+            forall |p: MatR| #[trigger] old(self).g_accepts(p) == final(self).g_accepts(p),
+            forall |al: MatR| #[trigger] old(self).g_eval_ok(al) == final(self).g_eval_ok(al),
+            forall |al: MatR, k: int| #[trigger] old(self).g_deriv_ok(al, k) == final(self).g_deriv_ok(al, k),
             r.is_ok() ==> final(self).g_params() == parameters@,
             old(self).g_accepts(parameters@) ==> r.is_ok();
   fn params(&self) -> (r: DMatrix) requires self.g_inv() ensures r@ == self.g_params(), r.ok(), r@.c == 1;
@@ -342,6 +349,16 @@ pub trait SeparableNonlinearModel: Sized {
     ensures r matches Ok(m) ==> m@ == self.g_dphi(self.g_params(), derivative_index as int) && m.ok()
                                 && m@.r == self.g_len() && m@.c == self.g_nbasis(),
             self.g_deriv_ok(self.g_params(), derivative_index as int) ==> r.is_ok();
+}
+
+/// what no method of a model may change (a free function: trait default bodies stay opaque for generic `Self`)
+pub open spec fn g_same<M: SeparableNonlinearModel>(a: &M, o: &M) -> bool {
+  &&& a.g_len() == o.g_len() && a.g_nbasis() == o.g_nbasis() && a.g_nparams() == o.g_nparams()
+  &&& forall |al: MatR| #[trigger] a.g_phi(al) == o.g_phi(al)
+  &&& forall |al: MatR, k: int| #[trigger] a.g_dphi(al, k) == o.g_dphi(al, k)
+  &&& forall |p: MatR| #[trigger] a.g_accepts(p) == o.g_accepts(p)
+  &&& forall |al: MatR| #[trigger] a.g_eval_ok(al) == o.g_eval_ok(al)
+  &&& forall |al: MatR, k: int| #[trigger] a.g_deriv_ok(al, k) == o.g_deriv_ok(al, k)
 }
 
 // =============================================================================== levenberg-marquardt 0.14
